@@ -11,6 +11,8 @@ STATIC_THEOREMS = [
     'SnapraidVerif.Props.C03.rec_unique',
     'SnapraidVerif.Props.C03.cauchy_decode_exact',
     'SnapraidVerif.Props.C03.power_decode_exact',
+    'SnapraidVerif.Props.C03.decode_with_intact',
+    'SnapraidVerif.Props.C03.decode_with_intact_z',
 ]
 
 LEVN = e2e.LEV_NAMES
